@@ -384,11 +384,17 @@ def judge(h: History, results, iface, case) -> list:
             if got:
                 add("justified", f"frame {idx} on unmonitored id 0x{cid:X} produced {got}", "unmonitored-id")
             continue
+        n_sf = 0
         for (rid, payload) in got:
             if rid != cid:
                 add("justified", f"frame {idx} on 0x{cid:X} reported a telegram for 0x{rid:X}", "wrong-id", kind=kind)
                 continue
             v = j.judge(payload)
+            if v == "ok":
+                n_sf += 1
+                if n_sf > 1:
+                    add("at-most-once", f"frame {idx} (0x{cid:X} {data.hex()}): single frame reported more than once",
+                        "twice:sf", kind=kind)
             if v == "unjustified":
                 add("justified", f"frame {idx} (0x{cid:X} {data.hex()}) reported {payload.hex()!r} which the frames "
                     f"received on this id do not justify", f"unjustified:{kind}", kind=kind)
@@ -716,7 +722,7 @@ def run_shard(spec, seed, tier):
         res.stages["enumeration"] = n
         return res
     if spec[0] == "atheris":
-        run_atheris(res, kf, seed, 150_000)
+        run_atheris(res, kf, seed, 200_000)
         return res
 
     def body(case):
@@ -725,10 +731,10 @@ def run_shard(spec, seed, tier):
         return split_known(fails, kf, res)
 
     if spec[0] == "rand":
-        n = 1000 if tier == "quick" else 5000
+        n = 1500 if tier == "quick" else 5000
         found = core.hyp_search(_strategies(random_only=True, max_ops=30), body, seed, n)
     else:
-        n = 1500 if tier == "quick" else 6000
+        n = 2000 if tier == "quick" else 6000
         found = core.hyp_search(_strategies(max_ops=40 if tier == "quick" else 60), body, seed, n)
     if found:
         res.failures.extend(found)
